@@ -103,6 +103,7 @@ type c11Checker struct {
 	dataBuf []byte
 	out     bytes.Buffer
 	refOut  []byte
+	nApply  int
 }
 
 func (ck *c11Checker) record(op wsync.Operation) error {
@@ -166,9 +167,22 @@ func (ck *c11Checker) run(olds [][]byte, lib_ *wsync.BlockLibrary, newData []byt
 	}
 	if realApply {
 		ck.out.Reset()
-		for i, op := range ck.ops {
-			if err := ck.apply.ApplySingle(&ck.out, pool, op); err != nil {
-				return "applysingle-error", fmt.Sprintf("op %d: %v", i, err), 0, 0
+		ck.nApply++
+		if ck.nApply%2 == 0 {
+			// the library's own replay loop over an operation channel
+			ch := make(chan wsync.Operation, len(ck.ops))
+			for _, op := range ck.ops {
+				ch <- op
+			}
+			close(ch)
+			if err := ck.apply.ApplyPatch(&ck.out, pool, ch); err != nil {
+				return "applypatch-error", err.Error(), 0, 0
+			}
+		} else {
+			for i, op := range ck.ops {
+				if err := ck.apply.ApplySingle(&ck.out, pool, op); err != nil {
+					return "applysingle-error", fmt.Sprintf("op %d: %v", i, err), 0, 0
+				}
 			}
 		}
 		if !bytes.Equal(ck.out.Bytes(), newData) {
@@ -436,7 +450,7 @@ func init() {
 	lib.Register(&lib.Property{
 		ID:          "C11",
 		Level:       "exploration",
-		Rule:        "every execution of the real CreateSignature+ComputeDiff is monitored: recorded operations are replayed by a reference replayer with explicit bounds checks and (every 4th exhaustive / every random case) by the real ApplySingle over an in-memory pool; structural predicates (range inside the named file, merged ranges, data op <= 4 MiB, empty data only leading). Exhaustive sub-spaces, each enumerated completely for block sizes 1..4 and every preferred index: E1 one old file alphabet 2 |old|<=7 |new|<=9; E2 one old alphabet 3 |old|<=5 |new|<=7; E3 two old alphabet 2 |old|<=4 |new|<=9; E4 three old alphabet 2 |old|<=3 |new|<=8 (thorough adds E5 two old a2 |old|<=6 |new|<=9, E6 one old a3 |old|<=7 |new|<=8, E7 two old a3 |old|<=3 |new|<=7, E8 two old a2 |old|<=7 |new|<=8, E9 three old a2 |old|<=4 |new|<=8). Random large part: block sizes {1,2,3,7,64,1000,4096,65536}, new content > 4 MiB (up to 8 MiB+) in shapes nomatch / phases / wrapmatch / lowentropy / tailprefix / exact4m / fresh-tail. distinct_nontrivial = exhaustive executions whose op list has both a block range and a data op (distinct tuples by construction) + distinct random feature signatures",
+		Rule:        "every execution of the real CreateSignature+ComputeDiff is monitored: recorded operations are replayed by a reference replayer with explicit bounds checks and (every 4th exhaustive / every random case) by the real ApplySingle / ApplyPatch (alternating) over an in-memory pool; structural predicates (range inside the named file, merged ranges, data op <= 4 MiB, empty data only leading). Exhaustive sub-spaces, each enumerated completely for block sizes 1..4 and every preferred index: E1 one old file alphabet 2 |old|<=7 |new|<=9; E2 one old alphabet 3 |old|<=5 |new|<=7; E3 two old alphabet 2 |old|<=4 |new|<=9; E4 three old alphabet 2 |old|<=3 |new|<=8 (thorough adds E5 two old a2 |old|<=6 |new|<=9, E6 one old a3 |old|<=7 |new|<=8, E7 two old a3 |old|<=3 |new|<=7, E8 two old a2 |old|<=7 |new|<=8, E9 three old a2 |old|<=4 |new|<=8). Random large part: block sizes {1,2,3,7,64,1000,4096,65536}, new content > 4 MiB (up to 8 MiB+) in shapes nomatch / phases / wrapmatch / lowentropy / tailprefix / exact4m / fresh-tail. distinct_nontrivial = exhaustive executions whose op list has both a block range and a data op (distinct tuples by construction) + distinct random feature signatures",
 		Assumptions: []string{"the property's full small-scope statement (three files of length <= 7 over 3 symbols) is > 10^16 cases and is NOT enumerated; exhaustive=true refers to the listed sub-spaces only"},
 		Cases:       c11Cases,
 		Run:         c11Run,
